@@ -185,3 +185,108 @@ Proof.
   rewrite (uses_nil_bookings r2_fact (r2_legs acct feeacct) (fun _ => None) r2_text); [reflexivity|].
   intros r _. unfold r2_legs. destruct (is_zero (r2_fee r)); named_legs.
 Qed.
+
+(* ---------------------------------------------------------------- revolut *)
+Lemma is_prefix_split p : forall s, is_prefix p s = true -> s = p ++ skipn (length p) s.
+Proof.
+  induction p as [|x p IH]; intros s H; [reflexivity|].
+  destruct s as [|y s]; [discriminate H|]. cbn [is_prefix] in H. apply andb_prop in H. destruct H as [Hx Hp].
+  apply Z.eqb_eq in Hx. subst y. cbn [length skipn app]. f_equal. apply IH, Hp.
+Qed.
+
+Lemma span_spec f s : forall a b, span f s = (a, b) -> s = a ++ b /\ forallb f a = true.
+Proof.
+  induction s as [|c s IH]; intros a b H; cbn [span] in H.
+  - injection H as <- <-. split; reflexivity.
+  - destruct (f c) eqn:E.
+    + destruct (span f s) as [a' b'] eqn:E'. injection H as <- <-. destruct (IH a' b' eq_refl) as [H1 H2].
+      subst s. cbn [app forallb]. rewrite E, H2. split; reflexivity.
+    + injection H as <- <-. split; reflexivity.
+Qed.
+
+Lemma rvs_currency_spec h cur : rvs_currency h = Some cur ->
+  field h 2 = s_paid_out ++ cur ++ [41%Z] /\ forallb is_alpha cur = true /\ cur <> [].
+Proof.
+  unfold rvs_currency. change rvs_paid_out with s_paid_out.
+  destruct (is_prefix s_paid_out (field h 2)) eqn:Hp; [|discriminate].
+  destruct (span is_alpha (skipn (length s_paid_out) (field h 2))) as [a rest] eqn:Hs.
+  destruct (negb (is_empty a) && str_eqb rest [41%Z]) eqn:Hc; [|discriminate]. intros H. injection H as ->.
+  apply andb_prop in Hc. destruct Hc as [Hne Hr]. apply str_eqb_eq in Hr. subst rest.
+  destruct (span_spec _ _ _ _ Hs) as [H1 H2]. split; [|split].
+  - rewrite (is_prefix_split _ _ Hp) at 1. rewrite H1. reflexivity.
+  - exact H2.
+  - intros ->. discriminate Hne.
+Qed.
+
+Lemma rvs_weave_spec acct cur rows : forall last,
+  rv_weave acct cur last rows (map (rv_txn acct cur) rows) = rvs_weave acct cur last rows.
+Proof. induction rows as [|r rows IH]; intros last; [reflexivity|]. cbn [map rv_weave rvs_weave]. rewrite IH. reflexivity. Qed.
+
+Lemma rvs_weave_named acct cur rows : forall last, is_nil_account acct = false -> uses_nil (rvs_weave acct cur last rows) = false.
+Proof.
+  intros last Na. rewrite <- rvs_weave_spec. apply rv_weave_named; [exact Na|].
+  assert (Nv : is_nil_account (valuation_account_for acct) = false) by reflexivity. pose proof tbd_named as Nt.
+  rewrite map_map.
+  apply (uses_nil_bookings (rv_fact cur) (rv_legs acct cur) (fun _ => None) rv_text).
+  intros r _. unfold rv_legs. destruct (rv_exchange r) as [[c q]|]; named_legs.
+Qed.
+
+Theorem revolut_stdout aflag acct recs :
+  account_flag aflag = AAcc acct -> rv_statement_wf recs = true ->
+  exists out, rv_statement_output acct recs = Some out /\ run_revolut aflag (map CRec recs) = mkRun out SOk.
+Proof.
+  intros Fa Hwf. unfold rv_statement_output. rewrite Hwf.
+  destruct recs as [|h rows]; [discriminate Hwf|]. cbn [rv_statement_wf] in Hwf.
+  apply andb_prop in Hwf. destruct Hwf as [Hwf Hrows]. apply andb_prop in Hwf. destruct Hwf as [Hl Hc].
+  destruct (rvs_currency h) as [cur|] eqn:Hcur; [|discriminate Hc]. eexists. split; [reflexivity|].
+  destruct (rvs_currency_spec h cur Hcur) as (Hh & Ha & Hne).
+  pose proof (account_flag_named _ _ Fa) as Na.
+  unfold run_revolut. cbn [resolve_flags]. rewrite Fa. cbn [flag_account map import_revolut].
+  unfold rv_header. rewrite Hl. cbn [negb]. unfold len_is in Hl.
+  do 9 (destruct h as [|? h]; [discriminate Hl|]). unfold field in Hh. cbn [nth] in Hh.
+  unfold fld_p, fld. cbn [nth_error]. rewrite Hh, (rv_cur_ok cur Ha Hne). cbn [mbind].
+  rewrite (rv_rows_ok acct cur rows zero_date Hrows), rvs_weave_spec. cbn [finish_run_b].
+  change zero_date with rvs_zero_day. rewrite (rvs_weave_named acct cur rows rvs_zero_day Na). reflexivity.
+Qed.
+
+(* ---------------------------------------------------------------- com.wise *)
+Theorem wise_stdout rep aflag fflag tflag acct feeacct trading recs :
+  account_flag aflag = AAcc acct -> account_flag fflag = AAcc feeacct -> account_flag tflag = AAcc trading ->
+  ws_statement_wf recs = true ->
+  exists out, ws_statement_output rep acct feeacct trading recs = Some out /\
+    run_wise rep aflag fflag tflag (map CRec recs) = mkRun out SOk.
+Proof.
+  intros Fa Ff Ft Hwf. unfold ws_statement_output. rewrite Hwf. eexists. split; [reflexivity|].
+  destruct recs as [|h rows]; [discriminate Hwf|]. cbn [ws_statement_wf] in Hwf. apply andb_prop in Hwf.
+  destruct Hwf as [Hh Hrows]. apply rec_eqb_eq in Hh. subst h. change wss_header with ws_header. cbn [tl map].
+  pose proof (account_flag_named _ _ Fa) as Na. pose proof (account_flag_named _ _ Ff) as Nf.
+  pose proof (account_flag_named _ _ Ft) as Nt.
+  unfold run_wise. cbn [resolve_flags]. rewrite Fa, Ff, Ft. cbn [flag_account import_wise].
+  rewrite ws_header_self. cbn [mbind]. rewrite (ws_rows_ok rep acct feeacct trading rows Hrows). rewrite map_map.
+  change (map (fun x => DTxn (entry_txn x)) (flat_map (ws_entries rep acct feeacct trading) rows))
+    with (ws_directives rep acct feeacct trading rows).
+  cbn [finish_run_b]. unfold ws_directives at 1.
+  rewrite (uses_nil_bookings en_fact en_legs (fun _ => None) en_text); [reflexivity|].
+  intros e He. apply in_flat_map in He. destruct He as (r & _ & He).
+  exact (ws_entries_named rep acct feeacct trading r e Na Nf Nt He).
+Qed.
+
+(* ---------------------------------------------------------------- ch.swissquote *)
+Theorem swissquote_stdout aflag dflag iflag wflag fflag tflag acct dividend interest tax fee trading recs :
+  account_flag aflag = AAcc acct -> account_flag dflag = AAcc dividend -> account_flag iflag = AAcc interest ->
+  account_flag wflag = AAcc tax -> account_flag fflag = AAcc fee -> account_flag tflag = AAcc trading ->
+  sqs_statement_wf recs = true ->
+  exists out, sqs_statement_output acct dividend interest tax fee trading recs = Some out /\
+    run_swissquote aflag dflag iflag wflag fflag tflag (map CRec recs) = mkRun out SOk.
+Proof.
+  intros Fa Fd Fi Fw Ff Ft Hwf. unfold sqs_statement_output. rewrite Hwf. eexists. split; [reflexivity|].
+  destruct recs as [|h rows]; [discriminate Hwf|]. cbn [sqs_statement_wf] in Hwf. cbn [tl map].
+  unfold run_swissquote. cbn [resolve_flags]. rewrite Fa, Fd, Fi, Fw, Ff, Ft. cbn [flag_account import_swissquote].
+  pose proof (sq_rows_ok acct dividend interest tax fee trading rows None Hwf) as E. cbn [option_map] in E. rewrite E. rewrite map_map.
+  change (map (fun x => DTxn (tentry_txn x)) (sqs_entries acct dividend interest tax fee trading None rows))
+    with (sqs_directives acct dividend interest tax fee trading rows).
+  cbn [finish_run_b]. unfold sqs_directives at 1.
+  rewrite (uses_nil_bookings (fun e : tentry => en_fact (fst e)) (fun e : tentry => en_legs (fst e)) (fun e : tentry => snd e)
+                             (fun e : tentry => en_text (fst e))); [reflexivity|].
+  intros e He. eapply sqs_entries_named; [..|exact He]; eapply account_flag_named; eassumption.
+Qed.
